@@ -1,13 +1,13 @@
 package main
 
 import (
-	"os"
 	"bytes"
 	"compress/flate"
 	"encoding/binary"
 	"errors"
 	"hash/crc32"
 	"io"
+	"os"
 	"strconv"
 
 	"github.com/golang/snappy"
